@@ -34,8 +34,9 @@ def main():
     print('audit: no Admitted/admit/Axiom/Parameter/Conjecture and no checker switch in coq/*.v')
     exe, log = common.build_model()
     print('model driver:', exe)
-    for v in ('plain', 'asan', 'count'):
+    for v in ('plain', 'asan', 'count', 'countasan', 'dyn'):
         print('harness', v, common.build_harness(v))
+    print('OOM fault table extracted from coq/Oom.v:', common.oom_table())
 
 if __name__ == '__main__':
     main()
